@@ -167,7 +167,7 @@ def handle (w : World) (line : String) : World × String :=
       let nq := ((kv toks "nq").bind natOf).getD 1
       let cls := ((kv toks "class").bind natOf).getD 1
       if cacheable resp nq rc cls then
-        let (w', _) := step w (.insert t k h q (normTtl n rttl) a n ns (ip = "1")); (w', "ok")
+        let (w', _) := step w (.insert t k h q (normTtl n rttl (((kv toks "ottl").bind natOf).getD rttl)) a n ns (ip = "1")); (w', "ok")
       else (w, "ok")
     | _, _, _, _, _, _, _, _, _, _ => (w, "bad-op")
   | "ask" :: toks =>
@@ -178,7 +178,7 @@ def handle (w : World) (line : String) : World × String :=
     | some t, some name, some q, some dst, some rttl, some a, some n, some ns, some rc =>
       let cls := ((kv toks "class").bind natOf).getD 1
       let g := ((kv toks "g").bind natOf).getD 1
-      let (w', outs) := w.ask t name q cls (.asIs (some dst)) ⟨rttl, a, n, ns, rc⟩ g
+      let (w', outs) := w.ask t name q cls (.asIs (some dst)) ⟨rttl, ((kv toks "ottl").bind natOf).getD rttl, a, n, ns, rc⟩ g
       let showHit (s : Served) : String :=
         let an := if s.nAns > 0 then toString s.ans else "-"
         let tt := if s.visible then toString s.ttl else "-"
